@@ -248,6 +248,19 @@ func c15Loop(cx *Ctx, r *ev.Report, method string) {
 	}
 	c := m.c
 	var det []string
+	if method == "Clear" && len(m.in.Loops) == 0 {
+		// the builtin clear(map) removes every entry
+		exp := dom.NewTrace(c)
+		exp.Emit(bdd.True, "map.clear", "recv", nil, 0, "ref")
+		for _, d := range c.DiffMultiset(m.tr.MultisetChar(nil), exp.MultisetChar(nil)) {
+			det = append(det, d)
+		}
+		if m.res != nil {
+			det = append(det, "Clear returns a value")
+		}
+		r.Check(len(det) == 0, key, "CLEAR: exactly one clear(receiver)", pos, "summary-equality", det...)
+		return
+	}
 	if len(m.in.Loops) != 1 {
 		det = append(det, fmt.Sprintf("%d loops found, expected one", len(m.in.Loops)))
 		r.Violate(key, rule, pos, det...)
@@ -279,7 +292,27 @@ func c15Loop(cx *Ctx, r *ev.Report, method string) {
 				}
 			}
 		}
-		if aPhi == "" {
+		if aPhi == "" && iPhi != "" {
+			// shape without an address variable: map[addr+uint16(i)] = data[i]
+			zb := strings.HasPrefix(iPhi, "0:")
+			name := strings.TrimPrefix(iPhi, "0:")
+			iAtom := c.Atom(fmt.Sprintf("loop%d.%s", ls.ID, name), w)
+			for _, f := range ls.Back {
+				if bv, _ := f.Val.(dom.BV); f.Phi == name && !bv.Equal(c.AddK(iAtom, 1)) {
+					det = append(det, "the element index does not advance by exactly 1")
+				}
+			}
+			idx := c.AddK(iAtom, 1)
+			if zb {
+				idx = iAtom
+			}
+			g := c.Slt(idx, m.lenOf(m.args[2]))
+			v := exp.Emit(g, "slice.get", m.args[2], []dom.BV{idx}, 8, "ref")
+			exp.Emit(g, "map.set", "recv", []dom.BV{c.Add(m.atom(m.args[1], 16), c.Trunc(idx, 16)), v}, 0, "ref")
+			if ls.BackPred != c.M.And(ls.EntryPred, g) {
+				det = append(det, "the loop can be left other than by exhausting data (or continues past it)")
+			}
+		} else if aPhi == "" {
 			det = append(det, "no address variable initialised with the addr parameter")
 		}
 		if iPhi == "" {
